@@ -172,6 +172,7 @@ type tScreen struct {
 	eventQ       chan Event
 	running      bool
 	wg           sync.WaitGroup
+	engaging     sync.Mutex // serializes engage and disengage (Resume, Suspend, Fini)
 	mouseFlags   MouseFlags
 	pasteEnabled bool
 	focusEnabled bool
@@ -2092,6 +2093,10 @@ func (t *tScreen) Tty() (Tty, bool) {
 // Think of this is as tcell "engaging" the clutch, as it's going to be driving the
 // terminal interface.
 func (t *tScreen) engage() error {
+	// a Suspend in another goroutine releases the screen lock while it waits
+	// for the loops to stop: do not start them again until it is done
+	t.engaging.Lock()
+	defer t.engaging.Unlock()
 	t.Lock()
 	defer t.Unlock()
 	if t.tty == nil {
@@ -2153,6 +2158,11 @@ func (t *tScreen) engage() error {
 // can take over the terminal interface.  This restores the TTY mode that was
 // present when the application was first started.
 func (t *tScreen) disengage() {
+
+	// a second Suspend or Fini waits for the first to complete, rather than
+	// returning while the terminal is still being restored
+	t.engaging.Lock()
+	defer t.engaging.Unlock()
 
 	t.Lock()
 	if !t.running {
